@@ -2,7 +2,7 @@
 import looplib as L
 from vlib import Failure, finish, hexs
 
-COQ_FILES = L.LOOP_COQ_FILES
+COQ_FILES = L.LOOP_COQ_FILES + L.REFINE_COQ_FILES
 
 CORPUS = [
     # the noidle race: the server answers idle while the client cancels it
@@ -24,6 +24,10 @@ def gen(ctx):
     for _ in range(n):
         labels, info, nreq = L.gen_session(rng, rng.choice([5, 15, 40, 80]), pauses=True)
         scheds.append(L.Sched(labels=labels + L.flush(nreq), note="random session"))
+    # sessions inside the fragment of the refinement theorems (c05_exec_refines): the theorem's domain is sampled against the real client too
+    for _ in range(40 if ctx.tier == "quick" else 800):
+        labels, info, nreq = L.gen_fragment_session(rng, rng.choice([5, 15, 40, 80]))
+        scheds.append(L.Sched(labels=labels + L.flush(nreq), note="fragment session"))
     return scheds
 
 
@@ -55,7 +59,8 @@ def run(ctx, only=None):
     if only is not None:
         for r in results:
             print("labels:", " ".join(r["sched"].labels)[:1500], "\nops   :", " ".join(r["ops"])[:1500], "\nimpl  :", r["impl_raw"][:2500], "\nmodel :", " ".join(r["model_segs"])[:2500])
-    dist = {"tie_schedules": len(ties), "schedules": len(scheds), "labels_total": sum(len(s.labels) for s in scheds), "with_noidle": nontrivial,
+    inside, why = L.fragment_membership(ctx, scheds)
+    dist = {"in_refinement_fragment": inside, "outside_fragment_first_label_kind": why, "tie_schedules": len(ties), "schedules": len(scheds), "labels_total": sum(len(s.labels) for s in scheds), "with_noidle": nontrivial,
             "requests": sum(sum(1 for l in s.labels if l[0] in "ic") for s in scheds),
             "notifications": sum(sum(1 for l in s.labels if l.startswith("N:")) for s in scheds)}
     return finish(
